@@ -154,12 +154,35 @@ def perftrack(ctx) -> None:
         f'the train segment of the expanded pipeline (`{pv}.train`) is dropped: its head placeholder is the only holder of the first trainer\'s subscriptions, so after garbage collection that group is no longer trained, its apply fork not derived, and Composition.persistent loses/shifts positions',
         exp[0], key='train-segment-dropped',
     )
+    # evaluation of a trained generation never (re)trains it: the pipeline's train and label segments are not fed, so no
+    # trainer joins the executed segment (with them fed the compiler emits Loader -> Train -> Dumper -> Committer: the score
+    # is computed by actors re-trained on the evaluation window and a new generation is committed as a side effect)
+    fed = [core.src(s)[:70] for s in core.walk_local(fn.node) if isinstance(s, ast.Expr) and isinstance(s.value, ast.Call) and isinstance(s.value.func, ast.Attribute) and s.value.func.attr == 'subscribe' and core.src(s.value.func.value) in (f'{pv}.train', f'{pv}.label')]
+    ctx.check(not fed, 'C04.perftrack', fn, f'performance tracking applies the persisted states only: the pipeline train/label segments are never subscribed ({fed})', fn.node, key='no-training')
     ret = next((r for r in core.walk_local(fn.node) if isinstance(r, ast.Return)), None)
     ctx.check(ret is not None and core.src(ret.value) == f'{hv}.use(train={hv}.train.extend(tail=value))', 'C04.perftrack', fn, 'only the train segment of the head is replaced by the scoring flow', ret or fn.node, key='return')
 
 
+def loader_tolerance(ctx) -> None:
+    """The loader defaults to "no state" only when there is *nothing to load yet* (MissingError: no previous generation); any
+    other failure - an invalid/unknown generation, a broken registry - must surface, otherwise actors silently run untrained."""
+    prog = ctx.prog
+    le = prog.func('forml.flow._code.target.system:Loader.execute')
+    hs = [h for h in ast.walk(le.node) if isinstance(h, ast.ExceptHandler)]
+    ctx.floor('C04.loader', len(hs), 1)
+    for h in hs:
+        ctx.check(h.type is not None and core.src(h.type) == 'forml.MissingError', 'C04.loader', le, f'a failed state load is tolerated for MissingError only (handler: {core.src(h.type) if h.type is not None else "bare"})', h, key='Loader.execute:handler')
+    tr = next((x for x in le.body if isinstance(x, ast.Try)), None)
+    ctx.check(tr is not None and len(tr.body) == 1 and core.src(tr.body[0]) == 'return self._assets.load(self._key)', 'C04.loader', le, 'the loader returns the state stored under its own key', le.node, key='Loader.execute:load')
+    # one fresh actor per functor instruction in the serving expression (no sharing between worker groups built from one builder)
+    bd = prog.func(f'{PYFUNC}:Expression._build')
+    acts = [a for a in core.walk_local(bd.node) if isinstance(a, ast.Assign) and core.src(a.targets[0]) == 'actor']
+    ctx.check(len(acts) == 1 and core.src(acts[0].value) == 'builder()' and any(isinstance(x, ast.For) for x in core.ancestors(acts[0])), 'C04.loader', bd, 'pyfunc instantiates a fresh actor for every functor instruction (its state is preset per instruction)', acts[0] if acts else bd.node, key='pyfunc:fresh-actor')
+
+
 def run(ctx) -> None:
     from . import C08
+    loader_tolerance(ctx)
 
     C08.eqhash_agreement(ctx, ('forml.io.asset',), floor=3)
     drivers(ctx)
@@ -167,4 +190,4 @@ def run(ctx) -> None:
     chain(ctx)
     perftrack(ctx)
     C13.bracket(ctx)
-    shared.argname_scope(ctx, ('forml.runtime._agent', 'forml.io.asset', 'forml.flow._suite', 'forml.evaluation._stage', 'forml.provider.runner'), floor=2)
+    shared.argname_scope(ctx, ('forml.runtime._agent', 'forml.runtime._pad', 'forml.io.asset', 'forml.flow._suite', 'forml.evaluation._stage', 'forml.provider.runner'), floor=2)
